@@ -201,6 +201,25 @@ def batch(ver, phase, muts, *, seed, target="lan", level="lan"):
                     else:
                         s.call_send(reply=r)
                     s.settle(data=r)
+                elif phase == "queued_silent":
+                    # a VALID unsolicited frame reaches the idle client; the next request then goes unanswered for the whole retry budget
+                    if s.lan._protocol is None or not s.lan._alive:
+                        s.call_send()
+                        s.settle()
+                    fr = acdev.ACModel().state_frame(ftype=5)
+                    if ver == 3:
+                        cid = len(s.net.conns) - 1
+                        pkt = landev.v3_enc_packet(s.dev.sess[cid]["key"], landev.v2_wrap(fr, 7), 900 + n)
+                    else:
+                        pkt = landev.v2_wrap(fr, 7)
+                    for _ in range(1 + n % 2):
+                        if s.inject(pkt):
+                            s.deliver(len(s.parked) - 1)
+                    if target == "ac":
+                        s.call_op("refresh", reply="none")
+                    else:
+                        s.call_send(reply="none")
+                    s.settle(data="none")
                 elif phase == "queued":
                     if s.lan._protocol is None or not s.lan._alive:
                         s.call_send()
@@ -247,6 +266,10 @@ def collect(ctx: Ctx):
             (2, "read", v2_mutations(rng, frame, False), "ac", "lan"),
             (2, "queued", v2_mutations(rng, frame, False), "lan", "lan"),
             (2, "queued", v2_mutations(rng, frame, False), "ac", "lan"),
+            (2, "queued_silent", [b""] * 6, "lan", "lan"),
+            (2, "queued_silent", [b""] * 4, "ac", "lan"),
+            (3, "queued_silent", [b""] * 6, "lan", "lan"),
+            (3, "queued_silent", [b""] * 4, "ac", "lan"),
         ]
         for ver, phase, muts, target, level in plans:
             for ch in chunks(muts, 12):
